@@ -163,6 +163,10 @@ def Tok.answer : Tok → List Bytes
   | .neg .WONT o => [[255, 254, o]]
   | _ => []
 
+def isNeg : Tok → Bool
+  | .neg _ _ => true
+  | _ => false
+
 def delivered (ts : List Tok) : Bytes := ts.flatMap Tok.delivered
 def answers (ts : List Tok) : List Bytes := ts.flatMap Tok.answer
 
